@@ -8,8 +8,9 @@
    - handle_diagnostics_response    = p_handle_diag.
    The model is of the code AFTER the fixes F6 (frame count bit reset on retry exhaustion), F10 (the kind
    of request in flight is latched in `pe_diag_in_flight` when a new request starts), F12 (a diagnostics reply
-   during data exchange that carries Prm_Req restarts the bring-up) and F13 (ValidateConfig keeps the retry
-   counter when the reply is not a diagnostics reply).
+   during data exchange that carries Prm_Req restarts the bring-up) F13 (ValidateConfig keeps the retry
+   counter when the reply is not a diagnostics reply) and F14 (an unanswered probe of an offline peripheral
+   resets the frame count bit).
    Every panic site of the Rust code is explicit: debug_assert on the operating state, u8 overflow of the
    retry counter, FrameCountBit::cycle on Inactive, is_response().unwrap(), unreachable!() on a token
    telegram, copy_from_slice length mismatch.  Tables and constants come from Generated/DpTables.v.
@@ -166,7 +167,10 @@ Definition p_transmit_select (pa : params) (op : opstate) (p : periph) : periph 
   else
     match pe_state p with
     | PsOffline =>
-        if pe_retry p =? dp_offline_probe_retry then (p, diag_request pa p) else (p, PtxSkip None)
+        if pe_retry p =? dp_offline_probe_retry then (p, diag_request pa p)
+        else
+          (* F14 fix: the probe went unanswered, the next one is a first request again *)
+          (set_fcb p fcbit_reset, PtxSkip None)
     | PsWaitForParam =>
         match o_user_prm (pe_opts p) with
         | Some user => (p, prm_request pa p user)
